@@ -377,6 +377,89 @@ def expand(item, acc: core.Acc, tier):
     return succ
 
 
+# ---- several result sets alive at once ------------------------------------------------------------------------------------
+# Every cursor owns its result set: the cursors returned by a multi-statement execute_string, and two cursors of one
+# connection, are fetched from in every interleaving (3 fetch calls from {fetchone, fetchmany(2), fetchall} x {cursor 0,
+# cursor 1}), then drained; each cursor must have handed out exactly the rows of its own statement, in order.
+MULTI_PAIRS = {
+    "tuple": [(("ab", 3), ("aa", 2)), (("numdup", 2), ("a", 3)), (("a", 0), ("mixed", 2))],
+    "dict": [(("ab", 3), ("a", 2)), (("a", 0), ("mixed", 2))],
+}
+MULTI_OPS = [(c, o) for c in (0, 1) for o in ("one", "many2", "all")]
+
+
+def multi_items(tier):
+    import itertools
+
+    out = []
+    for kind, pairs in MULTI_PAIRS.items():
+        for source in ("execute_string", "two_cursors"):
+            for pair in pairs if tier != "quick" else pairs[:2]:
+                for seq in itertools.product(range(len(MULTI_OPS)), repeat=3):
+                    out.append((kind, source, pair, seq))
+    return out
+
+
+def multi_case(item, acc: core.Acc, tier):
+    from snowflake.connector.cursor import DictCursor, SnowflakeCursor
+
+    kind, source, pair, seq = item
+    conn = _conn()
+    cls_ = DictCursor if kind == "dict" else SnowflakeCursor
+    sqls_ = [COLSETS[cs][0].format(n=n) for cs, n in pair]
+    want = [shape_rows(cs, n) for cs, n in pair]
+    names = [COLSETS[cs][1] for cs, _ in pair]
+    rp = {"multi": [kind, source, [list(x) for x in pair], list(seq)]}
+    cls = f"kind={kind},source={source}"
+    acc.count("evaluations")
+    acc.count("transitions")
+    acc.count("traces")
+    try:
+        if source == "execute_string":
+            curs = list(conn.execute_string("; ".join(sqls_), cursor_class=cls_))
+        else:
+            curs = [conn.cursor(cls_), conn.cursor(cls_)]
+            for c_, q_ in zip(curs, sqls_):
+                c_.execute(q_)
+        if len(curs) != 2:
+            acc.violation("C05.own_result_set", cls + ",cursor_count", {"cursors": len(curs)}, rp)
+            return None
+        handed = [[], []]
+        for oi in seq:
+            ci, o = MULTI_OPS[oi]
+            left = len(want[ci]) - len(handed[ci])
+            if o == "one":
+                r = curs[ci].fetchone()
+                got = [] if r is None else [r]
+                exp_n = min(1, left)
+            elif o == "many2":
+                got = curs[ci].fetchmany(2)
+                exp_n = min(2, left)
+            else:
+                got = curs[ci].fetchall()
+                exp_n = left
+            if len(got) != exp_n:
+                acc.violation("C05.own_result_set", cls + f",op={o},count", {"cursor": ci, "expected_rows": exp_n, "got": [repr(x) for x in got], "sql": sqls_}, rp)
+                return None
+            handed[ci] += got
+        for ci in (0, 1):
+            handed[ci] += curs[ci].fetchall()
+            rows = [tuple(r.values()) if isinstance(r, dict) else tuple(r) for r in handed[ci]]
+            ok = len(rows) == len(want[ci]) and all(len(a) == len(b) and all(_eqv(x, y) for x, y in zip(a, b)) for a, b in zip(rows, want[ci]))
+            if not ok:
+                acc.violation("C05.own_result_set", cls + ",rows", {"cursor": ci, "sql": sqls_[ci], "expected": [repr(x) for x in want[ci]], "got": [repr(x) for x in rows]}, rp)
+            if curs[ci].rowcount != len(want[ci]):
+                acc.violation("C05.own_result_set", cls + ",rowcount", {"cursor": ci, "expected": len(want[ci]), "got": curs[ci].rowcount}, rp)
+            if [d.name for d in curs[ci].description] != names[ci]:
+                acc.violation("C05.own_result_set", cls + ",description", {"cursor": ci, "expected": names[ci], "got": [d.name for d in curs[ci].description]}, rp)
+    except Exception as e:  # noqa: BLE001
+        acc.violation("C05.own_result_set", cls + f",exc={type(e).__name__}", {"error": str(e)[:200], "sql": sqls_}, rp)
+        return None
+    acc.obs((item, "ok"))
+    acc.nontrivial(("multi", item))
+    return None
+
+
 def run(ctx: core.Ctx):
     ctx.rule = (
         "BFS to fixpoint over abstract cursor states (kind, shape, rows handed out, arraysize); every enabled op "
@@ -416,6 +499,9 @@ def run(ctx: core.Ctx):
         frontier = keep
         depth += 1
         ctx.acc.counters["max_depth"] = depth
+    mi = multi_items(ctx.tier)
+    ctx.pmap(multi_case, mi, recheck=False)
+    ctx.extra["several_result_sets_alive"] = {"cases": len(mi), "sources": ["execute_string (2 statements)", "two cursors of one connection"], "fetch_calls_interleaved": 3}
     for st in seen:
         ctx.acc.add("states", st)
     ctx.exhaustive = True
@@ -424,6 +510,12 @@ def run(ctx: core.Ctx):
 
 def replay(payload):
     r = payload["replay"]
+    if "multi" in r:
+        kind, source, pair, seq = r["multi"]
+        acc = core.Acc()
+        multi_case((kind, source, tuple(tuple(x) for x in pair), tuple(seq)), acc, "quick")
+        print(acc.viol or "ok")
+        return bool(acc.viol)
     model, exp, got = run_history(r["kind"], [tuple(o) if not isinstance(o[-1], list) else (o[0], tuple(o[1])) for o in r["history"]], tuple(r["op"]) if not isinstance(r["op"][-1], list) else (r["op"][0], tuple(r["op"][1])))
     print("history:", r["history"], "op:", r["op"])
     print("expected:", exp)
